@@ -242,6 +242,16 @@ def run(ctx: Ctx) -> int:
         ok = len(gch) == 1 and names <= {"subcommand", "subparser"}
         ctx.oblige("C06.d", ok, rec_calls[0], "required arguments of the selected subcommand are checked whenever a subcommand is selected" if ok else f"the check of the selected subcommand's required arguments is additionally guarded by {sorted(names - {'subcommand', 'subparser'})}: a missing or null section passes", fn=cr, construct="subcommand required recursion guard")
 
+    # a required subcommand that cannot be determined is an error
+    gs = ctx.func("_actions:_ActionSubCommands.get_subcommands")
+    rz_s = [r for r in walk_local(gs) if isinstance(r, ast.Raise) and isinstance(r.exc, ast.Call) and call_leaf(r.exc) == "NSKeyError"]
+    ok = bool(rz_s)
+    if ok:
+        gch = guard_chain(rz_s[0])
+        txt = " ".join(ast.unparse(t) for t, pol in gch if pol)
+        ok = "_required" in txt and "_name_parser_map" in txt and "fail_no_subcommand" in txt
+    ctx.oblige("C06.d", ok, rz_s[0] if rz_s else gs, "a required subcommand that is neither given nor derivable raises NSKeyError naming the key" if ok else "a missing required subcommand is no longer an error", fn=gs, construct="required subcommand raises")
+
     # ---------------- C06.e ---------------------------------------------------
     act = ctx.func("_typehints:adapt_class_type")
     g = ctx.cfg(act)
